@@ -666,7 +666,9 @@ ITER_ADAPTERS = [
     '<* as std::borrow::ToOwned>::to_owned', 'std::borrow::ToOwned::to_owned',
     '<* as std::convert::AsRef>::as_ref', 'std::convert::AsRef::as_ref',
     '<* as std::convert::Into>::into', 'std::convert::Into::into',
-    '<* as std::convert::From>::from',
+    '<* as std::convert::From>::from', 'std::convert::From::from',
+    '<* as std::convert::TryInto>::try_into', 'std::convert::TryInto::try_into',
+    '<* as std::convert::TryFrom>::try_from', 'std::convert::TryFrom::try_from',
     'std::slice::<impl [T]>::iter', 'std::vec::Vec::iter', '[T]::iter', '[T]::to_vec',
     'std::iter::traits::iterator::Iterator::enumerate', 'std::iter::traits::iterator::Iterator::zip',
     'std::iter::traits::iterator::Iterator::rev', 'std::iter::traits::iterator::Iterator::copied',
@@ -734,7 +736,8 @@ def origins(body, start, through_calls=True, max_nodes=4000, call_filter=None):
                     continue
                 if through_calls == 'adapters':
                     # only result adapters (first argument) and iteration / deref / clone adapters
-                    if adapter_polarity(c) is not None or any(match_any(ITER_ADAPTERS, nn) for nn in c.names()):
+                    if adapter_polarity(c) is not None or any(match_any(ITER_ADAPTERS, nn) for nn in c.names()) \
+                            or len(c.args) == 1:     # unary method on the value itself (codec / accessor)
                         for a in c.args[:1]:
                             if a[0] in ('copy', 'move'):
                                 work.append((a[1][0], fields_of(a[1][1])))
@@ -861,7 +864,10 @@ def fields_of(proj):
 
 # ---------------------------------------------------------------- forward flow (loose)
 
-def flows_forward(body, start_locals, through_calls=True):
+LOSSY_COLLECTIONS = ('BTreeMap<', 'HashMap<', 'BTreeSet<', 'HashSet<', 'IndexMap<')
+
+
+def flows_forward(body, start_locals, through_calls=True, avoid_types=None):
     """Locals (transitively) derived from start_locals, flow-insensitively.  With
     through_calls every call propagates from any argument to its destination and into any
     `&mut` argument's referent (approximated: the local the &mut was taken from)."""
@@ -887,6 +893,8 @@ def flows_forward(body, start_locals, through_calls=True):
                 if pl[0] in derived:
                     continue
                 if any(l in derived for l, _ in rvalue_reads(rv)):
+                    if avoid_types and any(x in body.lty(pl[0]) for x in avoid_types):
+                        continue
                     derived.add(pl[0])
                     changed = True
             t = b.term
@@ -894,7 +902,7 @@ def flows_forward(body, start_locals, through_calls=True):
                 c = t[1]
                 srcs = [a[1][0] for a in c.args if a[0] in ('copy', 'move')]
                 if any(s in derived for s in srcs):
-                    if c.dest[0] not in derived:
+                    if c.dest[0] not in derived and not (avoid_types and any(x in body.lty(c.dest[0]) for x in avoid_types)):
                         derived.add(c.dest[0])
                         changed = True
                     for s in srcs:
